@@ -339,6 +339,10 @@ int main (int argc, char *argv[]) {
             write_data(zck, data + start, in_size - (start + matched));
     }
 
+    /* Write out a partial match of the split string at the end of the input */
+    if(matched > 0)
+        write_data(zck, arguments.split_string, matched);
+
     close(in_fd);
 
     if(!zck_close(zck)) {
